@@ -296,8 +296,13 @@ class Exporter:
         return g.ix_msg(sets)
 
 
+_FRESH = random.Random(20261005)
+
+
 def ops_reset(parsers=("A",), allowed=None):
-    out = [{"op": "reset"}]
+    # half of the sessions start on a fresh worker thread, the others inherit whatever per-thread state the library
+    # keeps (thread_local!) from the sessions before them; process-wide state (statics) is always inherited
+    out = [{"op": "reset", "fresh": _FRESH.random() < 0.5}]
     for p in parsers:
         out.append({"op": "new", "p": p, "allowed": allowed if allowed is not None else ALL})
     return out
@@ -321,6 +326,8 @@ def conformant_session(g, npk=8, unknown=True, multi_tmpl=True, parsers=("A", "B
             pk = g.fixed(5, r.choice([0, 1, 2, 3, 30, 31, 33]))     # the documented range is 1-30; the count field governs
         elif m < 0.2:
             pk = g.fixed(7, r.choice([0, 1, 2, 5, 31]))
+        elif m < 0.24:
+            pk = g.v9_hdr(0) if r.random() < 0.6 else g.ix_msg([])   # header-only packets: 20 / 16 bytes, then the next packet
         else:
             proto = "v9" if r.random() < 0.5 else "ipfix"
             e = ex[p][proto]
@@ -467,6 +474,10 @@ def hostile_templates_session(g):
         body = [r.randrange(256) for _ in range(r.choice([0, 1, 4, 16, 64, 300]))]
         ops.append(call("A", g.v9_hdr(1) + g.set_(tid, body)))
         ops.append(call("A", g.ix_msg([g.set_(tid, body)])))
+    # a V9 header announcing no flowsets, followed by bytes that would read as flowsets (a template, data for a cached
+    # id): the packet is its 20 header bytes, what follows starts with "version" 0 / 256
+    ops.append(call("A", g.v9_hdr(0) + g.set_(0, b16(262) + b16(1) + b16(8) + b16(4))))
+    ops.append(call("A", g.v9_hdr(0) + g.set_(r.choice([256, 257, 258]), g.rbytes(16))))
     return ops
 
 
